@@ -64,6 +64,7 @@ var interpPkgs = map[string]bool{
 	"bytes":                       true,
 	"gopkg.in/yaml.v3":            false,
 	"strconv":                     true,
+	"encoding/json":               true, // only (*SyntaxError).Error is ever reached; Unmarshal is an intrinsic
 }
 
 func interpretedPkg(path string) bool { return interpPkgs[path] }
@@ -1030,6 +1031,13 @@ func init() {
 		}
 		var out interface{}
 		if err := json.Unmarshal(b, &out); err != nil {
+			if se, ok := err.(*json.SyntaxError); ok {
+				// keep the dynamic type: callers type-assert *json.SyntaxError and read Offset
+				if jp := i.prog.ImportedPackage("encoding/json"); jp != nil && jp.Type("SyntaxError") != nil {
+					var sv value = structure{se.Error(), se.Offset}
+					return iface{t: types.NewPointer(jp.Type("SyntaxError").Type()), v: &sv}
+				}
+			}
 			return i.newError(err.Error())
 		}
 		*ptr = i.jsonToValue(out)
